@@ -323,7 +323,7 @@ let c09_scores al k get geto (sm : f32 list list) =
              let wv = fb (int_of_string w) in
              if window_skipped a b wv then skip "window:nan" 1;
              if not (check_window a b wv) then pf (Printf.sprintf "window-outside-min-max pos=%d" p)
-         | _, _ -> ())) (List.combine positions win)
+         | _, _ -> skip "window:min_score-or-max_score-panicked" 1)) (List.combine positions win)
 
 let c09_pipe al k get geto =
   let cm = counts_stage al k get geto ~check:true in
@@ -541,6 +541,7 @@ let c09_stat al k get geto =
   same_fm "fq2" (to_freq ops pseudo cm2) fq2;
   let unit_cells m = List.for_all (List.for_all (fun x ->
       let v = ocaml_float (bf x) in (not (Float.is_nan v)) && v >= 0.0 && v <= 1.0)) m in
+  if not (unit_cells fq && unit_cells fq2) then skip "f-correlation-range:frequency-cells-outside-[0,1]" 1;
   corr_stage "f" conv_id fq fq2 get geto ~range:(unit_cells fq && unit_cells fq2);
   (* weights, WeightMatrix::information_content *)
   let mbg = (match res_of_bg_spec k (Option.get (get "bg")) with Ok b -> b | _ -> df_stop "stat-background-rejected") in
@@ -583,7 +584,8 @@ let c09_stat al k get geto =
            else List.iter2 (fun x2 x ->
                let v = ocaml_float (bf x) in
                if (not (Float.is_nan v)) && v >= 0.0 && v < infinity
-               && not (f32_close tiny (q_of_frac 1 10000) x2 x) then pf "pow2-of-score-not-the-weight") r2 r) w2 wm;
+               then (if not (f32_close tiny (q_of_frac 1 10000) x2 x) then pf "pow2-of-score-not-the-weight")
+               else skip "pow2-of-score:weight-nan-negative-or-inf" 1) r2 r) w2 wm;
        if not (fm_same (weight_of_scoring p2 sm) w2) then df "w2 model";
        (match geto "w2bg" with
         | Some b -> if not (row_same wbg (frow (ints b))) then pf "WeightMatrix::from(ScoringMatrix)-changed-background"
